@@ -91,7 +91,7 @@ def run(tier, seed):
           sel.add_bool_param(nm)
           declared[nm] = ('bool', ['True', 'False'])
         elif k == 'disc_int':
-          vals = r.sample([1, 2, 3, 5, 8], r.randrange(1, 4))
+          vals = r.sample([-3, -1, 0, 1, 2, 3, 5, 8], r.randrange(1, 4))
           sel.add_discrete_param(nm, vals)
           declared[nm] = ('int', [float(v) for v in vals])
         elif k == 'disc_float':
